@@ -672,7 +672,8 @@ def _pol_k(k, XA, XB, CA, CB):
                "transform (SEP per spin, NPOL spin-averaged features, POL k_aa k_bb + k_ab k_ba), get_kctrl symmetric/PSD and "
                "equal to that formula, get_k_and_deriv value == get_k and derivative vs finite differences of get_k in every "
                "raw feature of every spin (for unpolarised input in POL mode too: the derivative of get_k with respect to the one "
-               "spin channel given, the convention MappedDFTKernel uses); "
+               "spin channel given, the convention MappedDFTKernel uses); after an in-place update of the kernel's theta, get_kctrl and "
+               "get_k equal the formulas for the kernel as it is now; "
                "non-trivial = composite or non-sklearn kernel, nsamp*nctrl >= 2",
           tolerances={"fd_rtol": 1e-6, "value_rtol": 1e-12})
 def dft_kernel(case, ctx):
@@ -770,6 +771,22 @@ def dft_kernel(case, ctx):
                 xp = X0T.copy()
                 xp[s, i] *= 1.37
                 ctx.equal_bits(dk.get_k(xp)[:, 1 - s, :], kk[:, 1 - s, :], ("sep_spin_crosstalk", mode))
+    # hyper-parameters updated in place on the kernel object the DFTKernel holds (what an optimiser does through
+    # kernel.theta): every covariance afterwards is that of the kernel as it is now
+    theta = np.array(k.theta, dtype=float)
+    if theta.size:
+        k.theta = theta + rng_from(case["seed"] + 13).uniform(0.1, 0.4, theta.size)
+        ctx.event("theta_updated_in_place")
+        want2 = _pol_k(k, C[0], C[1], C[0], C[1]) if mode == "POL" else k(C, C)
+        if np.all(np.isfinite(want2)):
+            Kmm2 = G.guard(ctx, ("get_kctrl", mode, "after_theta_update"), lambda: dk.get_kctrl())
+            ctx.close(Kmm2, want2, ("kctrl_value", mode, "after_theta_update"), rtol=1e-12,
+                      scale=max(float(np.max(np.abs(want2))), 1e-300))
+            wantk2 = ref_k(X0T)
+            if np.all(np.isfinite(wantk2)):
+                kk2 = G.guard(ctx, ("get_k", mode, "after_theta_update"), lambda: dk.get_k(X0T.copy()))
+                ctx.close(kk2, wantk2, ("get_k_value", mode, "after_theta_update"), rtol=1e-12,
+                          scale=max(float(np.max(np.abs(wantk2))), 1e-300))
 
 
 # =================================================================================================
